@@ -38,7 +38,7 @@ def check(tier, seed):
         rng = C.rng_for(seed, 'C08')
         mt = R.message_table()
         cases = []
-        per = 6 if tier == 'quick' else 200
+        per = 6 if tier == 'quick' else 60
         for name, e in sorted(mt.items()):
             if e['kind'] not in ('fixed', 'counted', 'monver') or (e['kind'] == 'fixed' and not e['layout']):
                 continue
@@ -93,6 +93,47 @@ def check(tier, seed):
                         res.violation(f'{name}: encode then decode does not return the assigned values',
                                       {'property': 'C08', 'input': {'message': name, 'values': vals}, 'decoded_back': impl.split(' ')[1]},
                                       f'c08-back|{name}')
+        # CFG-VALGET responses: decode -> pack() reproduces the pairs (reserved key bits cleared); editing one value
+        # changes only that pair's value bytes
+        from .. import cfggen as K
+        from ubxlib.ubx_cfg_valget import UbxCfgValGet
+        kt = R.key_tables()
+        sk = ','.join(str(k) for k in kt['signed']) or '-'
+        for n in [1, 2, 5, 64] + [rng.randrange(1, 65) for _ in range(6 if tier == 'quick' else 200)]:
+            body, offs = b'', []
+            for j in range(n):
+                size = rng.randrange(1, 6)
+                key = (size << 28) | (rng.randrange(256) << 16) | rng.choice([0, 1, 0x3FF, 0x400, 0x7FF, 0x800, 0xFFF, rng.randrange(4096)])
+                w = {1: 1, 2: 1, 3: 2, 4: 4, 5: 8}[size]
+                val = bytes([rng.choice([0, 1])]) if size == 1 else bytes(rng.getrandbits(8) for _ in range(w))
+                offs.append((4 + len(body) + 4, w, size))
+                body += key.to_bytes(4, 'little') + val
+            data = bytes([0, rng.choice([0, 1, 2, 7]), 0, 0]) + body
+
+            def rt(data=data):
+                fr = UbxCfgValGet.construct(bytearray(data))
+                fr.pack()
+                return C.hexs(fr.data)
+            impl = C.guarded(rt)
+            desc = {'message': 'UbxCfgValGet', 'pairs': n, 'payload_hex': C.hexs(data)}
+            cases.append(Case('valget-decode-encode', f'valgetenc {sk} {C.hexs(data)}', impl, desc, kind='valget/roundtrip'))
+            if impl != C.hexs(data):
+                res.violation('CFG-VALGET: decode then encode does not reproduce the payload', {'property': 'C08', 'input': desc, 'reencoded': impl}, 'c08-valget-rt')
+            j = rng.randrange(n)
+            off, w, size = offs[j]
+
+            def edit(data=data, j=j, size=size, w=w):
+                fr = UbxCfgValGet.construct(bytearray(data))
+                item = fr.f._fields[f'data{j}']
+                item.value = (not item.value) if size == 1 else (item.value ^ 1 if item.value >= 0 else item.value + 1 if item.value < -1 else -2)
+                fr.pack()
+                return bytes(fr.data)
+            try:
+                after = edit()
+                if len(after) != len(data) or after[:off] != data[:off] or after[off + w:] != data[off + w:] or after == data:
+                    res.violation('CFG-VALGET: editing one value changed bytes outside that pair\'s value (or nothing)', {'property': 'C08', 'input': dict(desc, edited=j), 'after': C.hexs(after)}, 'c08-valget-edit')
+            except Exception as e:
+                res.violation('CFG-VALGET: editing one value raised ' + type(e).__name__, {'property': 'C08', 'input': dict(desc, edited=j)}, 'c08-valget-edit-exn')
         res.compare(cases)
         res.oblige('correspondence pack()/assignment vs model and oracle (Tie A)', not res.disagreements)
         res.oblige('implementation-only locality / value-return checks', not res.violations)
